@@ -19,7 +19,7 @@ def validate_everything(b, tag):
 def corner_cases(tier):
     def fn(b, sym):
         case = sym.choose("case", ["empty-root", "only-empty-dirs", "sf-below-nested", "sf-folder-empty", "exit-10", "exit-11", "new-files",
-                                   "n-flag", "renames", "flatten", "flatten-failed", "creator", "formats", "nested-n", "sf-then-folder"])
+                                   "n-flag", "renames", "flatten", "flatten-failed", "creator", "formats", "nested-n", "sf-then-folder", "special-names"])
         b.note(case)
         if case == "empty-root":
             b.mkdir("R")
@@ -104,6 +104,20 @@ def corner_cases(tier):
             b.mkfile("R/d/b.txt", 2)
             r = b.run("create", root="R", h=["md5"], sf=["R/a.txt"])
             r = b.run("create", root="R", h=["md5", "sha1"])
+        elif case == "special-names":
+            # folder and file names with XML-special characters, several generations (earlier chain entries are rewritten), flatten twice
+            root = "Cam A&B <1>"
+            b.mkfile(root + "/a&b.txt", 1)
+            b.mkfile(root + "/sub <x>/c'd\".txt", 2)
+            nested = sym.flag("nested")
+            if nested:
+                r = b.run("create", root=root + "/sub <x>", h=["md5"])
+            for g in range(3):
+                r = b.run("create", root=root, h=["md5"])
+                b.require(r.exit == 0 and r.exc is None, "no-internal-error", "special-names gen %d: %s" % (g, r))
+            for g in range(2):
+                r = b.run("flatten", root=root, dest="OUT & <2>")
+                b.require(r.exit == 0 and r.exc is None, "no-internal-error", "special-names flatten %d: %s" % (g, r))
         b.require(r.exc is None or r.exit in (10, 11), "no-internal-error", "%s: %s" % (case, r))
         validate_everything(b, case)
     return fn
@@ -127,10 +141,10 @@ LEVEL_NOTE = ("XSD validity is decided in the model by xsdmini, a content-model/
 def harnesses(tier):
     return [
         Harness("c11-corners", corner_cases(tier), frontier=5, budget_s=2400, conformance=8,
-                what="15 scenario families (empty root, only empty dirs, -sf below a nested history, -sf on an empty folder, runs exiting 10/11, "
+                what="16 scenario families (empty root, only empty dirs, -sf below a nested history, -sf on an empty folder, runs exiting 10/11, "
                      "new files, -n, renames with -dr, flatten incl. failed entries, all 63 creator-option subsets, all 63 format subsets x order x "
                      "repeated -h, nested -n, -sf then folder): every written *.mhl / chain / collection validated",
-                bounds={"cases": 15, "formats": "all non-empty subsets of the six, either order, optional repeated -h"},
+                bounds={"cases": 16, "formats": "all non-empty subsets of the six, either order, optional repeated -h"},
                 outside=["overlapping -sf selections (same file sealed twice in one run)", "syntactically invalid e-mail addresses",
                          "equivalence of xsdmini and libxml2 beyond the constructs the two XSDs use (checked differentially, not proved)"]),
         Harness("c11-xsdmini", selfcheck, mode="unit", frontier=1, budget_s=600, twin_paths=1, conformance=0, real=True,
